@@ -50,6 +50,8 @@ type Case struct {
 	// Subber: number of Sub() calls a background goroutine makes while the script runs (its subscriptions drain
 	// from the start; what they must / may / must not receive follows from invocation-response stamps)
 	Subber int `json:"subber,omitempty"`
+	// Many: that many extra draining, unbuffered subscribers are made first (a PubSub with more than 64 subscriptions)
+	Many int `json:"many,omitempty"`
 	// SubberUnsub: the background goroutine also unsubscribes its own subscriptions again while the script runs.
 	// Only generated for scripts whose publishes are all Sync variants (they hold the lock while sending, so a
 	// concurrent Unsub must simply wait; with asynchronous variants this is the known finding).
@@ -322,6 +324,16 @@ func isSliceVariant(v string) bool { return strings.Contains(v, "Slice") }
 func isAsync(v string) bool        { return v == "Pub" || v == "PubSlice" }
 func isSyncV(v string) bool        { return strings.HasSuffix(v, "Sync") }
 
+// publishOwned publishes a private copy of evs and overwrites that copy the moment the call returns: the slice
+// belongs to the caller again then (a batch buffer is typically reused), whatever variant was used.
+func publishOwned(ps *chans.PubSub[int], variant string, evs []int) {
+	mine := append([]int(nil), evs...)
+	publish(ps, variant, mine)
+	for i := range mine {
+		mine[i] = -1000 - i
+	}
+}
+
 func publish(ps *chans.PubSub[int], variant string, evs []int) {
 	switch variant {
 	case "Pub":
@@ -448,6 +460,14 @@ func Run(c Case) pbt.Outcome {
 				}
 			}
 		}
+	}
+	for i := 0; i < c.Many; i++ {
+		s := &subscriber{idx: len(w.subs), ch: w.ps.SubBuf(0), cap: 0, mode: "drain", gate: make(chan struct{}), live: true, expect: map[int]bool{}}
+		w.subs = append(w.subs, s)
+		s.start()
+	}
+	if c.Many > 0 {
+		w.labels[">64-subscribers"] = true
 	}
 	variants := map[string]bool{}
 	unsubBetween := false
@@ -610,11 +630,11 @@ func Run(c Case) pbt.Outcome {
 			}
 			pubSeen = true
 			if !mustBlock {
-				publish(ps, st.Variant, evs)
+				publishOwned(ps, st.Variant, evs)
 			} else {
 				// the call must not return while the harness keeps the gate closed
 				ret := make(chan struct{})
-				go func() { defer close(ret); publish(ps, st.Variant, evs) }()
+				go func() { defer close(ret); publishOwned(ps, st.Variant, evs) }()
 				isDone := func() bool {
 					select {
 					case <-ret:
@@ -623,7 +643,7 @@ func Run(c Case) pbt.Outcome {
 						return false
 					}
 				}
-				_, fin, timedOut := gstate.WaitBlocked("c10.publish", isDone, 20*time.Second, "chan send", "select", "sync.WaitGroup.Wait", "semacquire")
+				_, fin, timedOut := gstate.WaitBlocked("c10.publish(", isDone, 20*time.Second, "chan send", "select", "sync.WaitGroup.Wait", "semacquire")
 				if fin {
 					return fail("step %d: %s(%v) returned while subscriber %d (unbuffered/full, receiver not yet receiving) cannot have been handed the event: it must return only after every hand-off", si, st.Variant, evs, blocker.idx)
 				}
@@ -712,6 +732,19 @@ func Run(c Case) pbt.Outcome {
 				}
 			}
 			if st.K == "unsuball" && c.Subber > 0 && !c.Racy {
+				// sends that cannot finish on their own (to a closed gate / a never-receiver, also on clones) would keep
+				// "in flight" forever: release every receiver first
+				for _, o := range w.subs {
+					if o.mode == "never" || (o.mode == "gated" && !o.gateOpen) {
+						o.openGate()
+						if o.mode == "never" {
+							o.mode = "drain"
+						}
+						o.start()
+						o.pending, o.asyncPending = 0, 0
+						w.labels["receivers-released-before-unsuball(background-subscriber)"] = true
+					}
+				}
 				if inc := drainInFlight(); inc != "" {
 					return pbt.Outcome{Inconclusive: inc}
 				}
@@ -983,6 +1016,9 @@ func genCase(t *rapid.T) Case {
 		Timeout:       rapid.SampledFrom([]string{"0", "0", "1h", "1ms"}).Draw(t, "timeout"),
 		OnTimeout:     rapid.Bool().Draw(t, "ontimeout"),
 		Subber:        rapid.SampledFrom([]int{0, 0, 0, 1, 3}).Draw(t, "subber"),
+	}
+	if rapid.IntRange(0, 24).Draw(t, "many?") == 0 {
+		c.Many = rapid.SampledFrom([]int{63, 64, 65, 70}).Draw(t, "many")
 	}
 	// start with 1..3 subscribers so that most publishes have somebody to reach
 	pre := rapid.IntRange(0, 3).Draw(t, "presubs")
